@@ -402,31 +402,12 @@ def translate_interplin(tree):
 
 PINS = {
     # ModelQ.gen_tables false: pcum = cumtrapz pofx x; norm = last; pcum/norm; xvals = tl x
-    ("esutil/random.py", "Generator", "initialize_points"):
-        "if self.method == 'accum':\n    if self.cumulative:\n        self.xvals = self.xinput\n        self.norm = self.pofx[-1]\n"
-        "        self.pcum = self.pofx / self.norm\n    else:\n        import scipy.integrate\n"
-        "        pcum = scipy.integrate.cumulative_trapezoid(self.pofx, self.xinput)\n        self.norm = pcum[-1]\n"
-        "        self.pcum = pcum / self.norm\n        self.xvals = self.xinput[1:]",
-    ("esutil/random.py", "Generator", "initialize_func"):
-        "if self.method == 'accum':\n    if self.cumulative:\n        self.xvals = self.xinput\n        self.norm = self.pofx(self.xinput[-1])\n"
-        "        self.pcum = self.pofx(self.xinput) / self.norm\n    else:\n        import scipy.integrate\n"
-        "        pofxvals = self.pofx(self.xinput)\n        pcum = scipy.integrate.cumulative_trapezoid(pofxvals, self.xinput)\n"
-        "        self.norm = pcum[-1]\n        self.pcum = pcum / self.norm\n        self.xvals = self.xinput[1:]",
-    # ModelQ.gen_sample: one uniform(size=n) call, interplin(xvals, pcum, urand)
+            # ModelQ.gen_sample: one uniform(size=n) call, interplin(xvals, pcum, urand)
     ("esutil/random.py", "Generator", "_genrand_accum"):
         "urand = self.rng.uniform(size=numrand)\nrand = stat.interplin(self.xvals, self.pcum, urand)\nreturn rand",
     # ModelQ.chol_sample (Some mean)
-    ("esutil/random.py", "CholeskySampler", "sample"):
-        "if n is None:\n    n = 1\n    is_scalar = True\nelse:\n    is_scalar = False\nnpar = self.npar\n"
-        "r = self.dist(npar * n).reshape(npar, n)\nV = numpy.dot(self.M, r)\nmean = self.mean\nfor i in range(npar):\n    V[i, :] += mean[i]\n"
-        "samples = V.T\nif is_scalar:\n    return samples[0, :]\nelse:\n    return samples",
-    # ModelQ.chol_sample means
-    ("esutil/random.py", None, "cholesky_sample"):
-        "if dist is None:\n    dist = numpy.random.randn\nnpar = cov.shape[0]\nif means is not None:\n    nm = len(means)\n"
-        "    if nm != cov.shape[0]:\n        raise ValueError('expected %d mean values, got %d' % (npar, nm))\n"
-        "M = numpy.linalg.cholesky(cov)\nr = dist(npar * n).reshape(npar, n)\nV = numpy.dot(M, r)\nif means is not None:\n"
-        "    for i in range(npar):\n        V[i, :] += means[i]\nreturn V.T",
-    # ModelLoops.up_loop / down_loop (and Model.atbound, C19_atbound_loops_terminate) for minval=0, maxval=360
+        # ModelQ.chol_sample means
+        # ModelLoops.up_loop / down_loop (and Model.atbound, C19_atbound_loops_terminate) for minval=0, maxval=360
     ("esutil/coords.py", None, "atbound"):
         "w, = np.where(longitude < minval)\nwhile w.size > 0:\n    longitude[w] += 360.0\n    w, = np.where(longitude < minval)\n"
         "w, = np.where(longitude > maxval)\nwhile w.size > 0:\n    longitude[w] -= 360.0\n    w, = np.where(longitude > maxval)\nreturn",
@@ -454,6 +435,137 @@ def check_pins(repo):
     return bad
 
 
+# ======================================================================================
+# random.py, translated (proof-deepening round): the cumulative table (Generator.initialize_points and
+# initialize_func) and the Cholesky sampler (cholesky_sample and CholeskySampler.sample) are read statement
+# by statement and printed as Gallina over the list / matrix vocabulary of ModelQ.v; coqc proves
+# gen_tables_src = gen_tables and chol_sample_src = chol_sample by reflexivity.
+# Array vocabulary:  A[-1] -> qlast A;  A / s -> map (fun p => Qred (p / s)) A;  A[1:] -> tl A;
+#   scipy.integrate.cumulative_trapezoid(y, x) -> cumtrapz y x;  self.pofx(self.xinput) -> the tabulated function
+#   values (the table `pofx` of the model);  self.pofx(self.xinput[-1]) -> qlast pofx;
+#   dist(npar * n).reshape(npar, n) -> reshape npar n flat;  numpy.dot(M, r) -> matmul M r n;
+#   for i in range(npar): V[i, :] += m[i] -> add_means m V;  V.T -> transpose V n
+# ======================================================================================
+
+def _method(tree, cls, fn):
+    scope = tree.body
+    if cls is not None:
+        scope = [n for n in scope if isinstance(n, ast.ClassDef) and n.name == cls]
+        scope = scope[0].body if scope else []
+    f = [n for n in scope if isinstance(n, ast.FunctionDef) and n.name == fn]
+    if not f:
+        raise Untranslatable("%s.%s not found" % (cls, fn))
+    return f[0]
+
+
+TBL_NAMES = {"self.pofx": "pofx", "self.xinput": "x", "pcum": "pcum", "self.norm": "norm", "pofxvals": "pofx",
+             "self.pcum": "pcumn", "self.xvals": "xvals"}
+
+
+def _tbl_e(n):
+    u = ast.unparse(n)
+    if u in ("self.pofx(self.xinput)",):
+        return "pofx"
+    if u == "self.pofx(self.xinput[-1])":
+        return "(qlast pofx)"
+    if u in TBL_NAMES:
+        return TBL_NAMES[u]
+    if isinstance(n, ast.Subscript):
+        sl = ast.unparse(n.slice)
+        if sl == "-1":
+            return "(qlast %s)" % _tbl_e(n.value)
+        if sl == "1:":
+            return "(tl %s)" % _tbl_e(n.value)
+    if isinstance(n, ast.BinOp) and isinstance(n.op, ast.Div):
+        return "(map (fun p => Qred (p / %s)) %s)" % (_tbl_e(n.right), _tbl_e(n.left))
+    if isinstance(n, ast.Call) and ast.unparse(n.func) == "scipy.integrate.cumulative_trapezoid" and len(n.args) == 2 and not n.keywords:
+        return "(cumtrapz %s %s)" % (_tbl_e(n.args[0]), _tbl_e(n.args[1]))
+    raise Untranslatable("table expression " + u)
+
+
+def _tbl_branch(stmts):
+    lets, seen = [], set()
+    for st in stmts:
+        u = ast.unparse(st)
+        if u == "import scipy.integrate":
+            continue
+        if isinstance(st, ast.Assign) and len(st.targets) == 1:
+            t = ast.unparse(st.targets[0])
+            if t == "pofxvals" and ast.unparse(st.value) == "self.pofx(self.xinput)":
+                continue                                      # the tabulated function values ARE the model's pofx
+            if t in TBL_NAMES:
+                lets.append("let %s := %s in" % (TBL_NAMES[t], _tbl_e(st.value)))
+                seen.add(TBL_NAMES[t])
+                continue
+        raise Untranslatable("table statement " + u)
+    if not {"xvals", "pcumn"} <= seen:
+        raise Untranslatable("table branch does not set xvals and pcum")
+    return " ".join(lets) + " (xvals, pcumn)"
+
+
+def translate_tables(tree):
+    out = []
+    for fn in ("initialize_points", "initialize_func"):
+        b = _nodoc(_method(tree, "Generator", fn))
+        if len(b) != 1 or not isinstance(b[0], ast.If) or ast.unparse(b[0].test) != "self.method == 'accum'" or b[0].orelse:
+            raise Untranslatable("Generator.%s: outer structure" % fn)
+        inner = b[0].body
+        if len(inner) != 1 or not isinstance(inner[0], ast.If) or ast.unparse(inner[0].test) != "self.cumulative" or not inner[0].orelse:
+            raise Untranslatable("Generator.%s: cumulative branch structure" % fn)
+        name = "gen_tables_src_" + ("points" if fn == "initialize_points" else "func")
+        d = ("Definition %s (cumulative : bool) (pofx x : list Q) : list Q * list Q :=\n  if cumulative then %s\n  else %s."
+             % (name, _tbl_branch(inner[0].body), _tbl_branch(inner[0].orelse)))
+        out.append((d, ("forall c pofx x, %s c pofx x = gen_tables c pofx x" % name, "intros; reflexivity.")))
+    return out
+
+
+def _chol_body(stmts, mname, meanname, guard_mean):
+    """statements of cholesky_sample / CholeskySampler.sample -> let chain ending in the returned matrix"""
+    lets = []
+    ret = None
+    for st in stmts:
+        u = ast.unparse(st)
+        if u in ("if dist is None:\n    dist = numpy.random.randn",
+                 "if n is None:\n    n = 1\n    is_scalar = True\nelse:\n    is_scalar = False",
+                 "if means is not None:\n    nm = len(means)\n    if nm != cov.shape[0]:\n        raise ValueError('expected %d mean values, got %d' % (npar, nm))",
+                 "mean = self.mean"):
+            continue
+        if u in ("npar = cov.shape[0]", "npar = self.npar"):
+            lets.append("let npar := length M in")            # cov.shape[0] = npar = size of the factor (oracle contract)
+        elif u == "M = numpy.linalg.cholesky(cov)":
+            continue                                          # the oracle: parameter M of the model
+        elif u in ("r = dist(npar * n).reshape(npar, n)", "r = self.dist(npar * n).reshape(npar, n)"):
+            lets.append("let r := reshape npar n flat in")
+        elif u == "V = numpy.dot(%s, r)" % mname:
+            lets.append("let V := matmul M r n in")
+        elif u == "for i in range(npar):\n    V[i, :] += %s[i]" % meanname and not guard_mean:
+            lets.append("let V := match means with Some m => add_means m V | None => V end in")
+        elif u == "if means is not None:\n    for i in range(npar):\n        V[i, :] += means[i]" and guard_mean:
+            lets.append("let V := match means with Some m => add_means m V | None => V end in")
+        elif u == "return V.T":
+            ret = "transpose V n"
+        elif u == "samples = V.T":
+            lets.append("let samples := transpose V n in")
+        elif u == "if is_scalar:\n    return samples[0, :]\nelse:\n    return samples":
+            ret = "samples"                                   # the scalar form is row 0 of the same matrix
+        else:
+            raise Untranslatable("Cholesky sampler statement " + u)
+    if ret is None or len(lets) < 4:
+        raise Untranslatable("Cholesky sampler: incomplete body")
+    return "\n  ".join(lets) + "\n  " + ret
+
+
+def translate_chol(tree):
+    out = []
+    for name, cls, fn, mname, meanname, guard in (("chol_sample_src_func", None, "cholesky_sample", "M", "means", True),
+                                                  ("chol_sample_src_class", "CholeskySampler", "sample", "self.M", "mean", False)):
+        body = _chol_body(_nodoc(_method(tree, cls, fn)), mname, meanname, guard)
+        d = ("Definition %s (means : option (list Q)) (M : list (list Q)) (n : nat) (flat : list Q) : list (list Q) :=\n  %s."
+             % (name, body))
+        out.append((d, ("forall means M n flat, %s means M n flat = chol_sample means M n flat" % name, "intros; reflexivity.")))
+    return out
+
+
 PRE_QT = ("From Coq Require Import QArith.\nFrom EsVerif.Common Require Import Base.\nFrom EsVerif.C19 Require Import ModelQ.\n"
           "Local Open Scope Q_scope.\n")
 
@@ -461,7 +573,12 @@ PRE_QT = ("From Coq Require Import QArith.\nFrom EsVerif.Common Require Import B
 def translate_q(repo):
     tree = ast.parse(open(os.path.join(repo, "esutil", "stat", "util.py")).read())
     d, l = translate_interplin(tree)
-    return d + "\n", [l]
+    defs, lems = [d], [l]
+    rtree = ast.parse(open(os.path.join(repo, "esutil", "random.py")).read())
+    for dd, ll in translate_tables(rtree) + translate_chol(rtree):
+        defs.append(dd)
+        lems.append(ll)
+    return "\n\n".join(defs) + "\n", lems
 
 
 PRE = ("From Coq Require Import Reals.\nFrom EsVerif.C19 Require Import Model Spec.\nOpen Scope R_scope.\n")
